@@ -155,15 +155,15 @@ def lockTrace (rf : Bool) : LockState → List LockOp → List String → Option
 def ltsAct (s : String) : Option Martian.LockLTS.Act :=
   match s.toList with
   | ['R'] => some .rmLock
-  | 'C' :: r => (String.ofList r).toNat?.map .check
-  | 'W' :: r => (String.ofList r).toNat?.map .write
+  | 'A' :: r => (String.ofList r).toNat?.map .acquire
+  | 'G' :: r => (String.ofList r).toNat?.map .register
   | 'U' :: r => (String.ofList r).toNat?.map .unlock
   | 'S' :: r => (String.ofList r).toNat?.map .signal
   | 'K' :: r => (String.ofList r).toNat?.map .kill
   | _ => none
 
 def ltsTrace (rf : Bool) : Martian.LockLTS.St → List Martian.LockLTS.Act → List String → Option (List String)
-  | s, [], acc => some (acc.reverse ++ [boolStr s.lockFile, toString s.holders.length, toString s.checked.length])
+  | s, [], acc => some (acc.reverse ++ [boolStr s.lockFile, toString s.holders.length, toString s.registered.length])
   | s, a :: r, acc =>
     if Martian.LockLTS.enabled s a then
       let (s', ok) := Martian.LockLTS.step rf s a
